@@ -122,6 +122,43 @@ def run(ctx):
                   'line %d: no common lock is held (locks in the package: '
                   '%s)' % (test.lineno, mark.lineno, sorted(locks) or 'none'),
                   where=where(f, test.node))
+    # R2: the mark outlives the membership
+    ctx.rule('C20.R2', 'the disconnecting mark is removed only after the '
+             'client has left every room (never "unmarked but still a '
+             'member")', floor=1)
+    f = m.method('BaseManager', 'basic_disconnect')
+    sid, ns = f.params[1:3]
+    run = run_function(f, m, max_iter=2)
+    seen = False
+    for p in run.paths:
+        if not p.normal:
+            continue
+        unmark = [e for e in p.events if
+                  (e.kind == 'call' and e.callee() in ('remove', 'discard',
+                                                       'pop') and
+                   'pending_disconnect' in U(run.expand(e.expr))) or
+                  (e.kind == 'del' and
+                   'pending_disconnect' in U(run.expand(e.expr)))]
+        leaves = [e for e in p.events if
+                  (e.kind == 'call' and e.callee() == 'basic_leave_room') or
+                  (e.kind == 'iter' and 'self.rooms[' in
+                   U(run.expand(e.expr)))]
+        if not unmark or not leaves:
+            continue
+        seen = True
+        ctx.check(unmark[0].idx > leaves[-1].idx,
+                  'BaseManager.basic_disconnect', 'pending_disconnect entry '
+                  'is dropped after the rooms have been left',
+                  key='unmark-before-leave', reason='the sid is removed '
+                  'from pending_disconnect (line %d) before it has left its '
+                  'rooms (line %d): in between is_connected() reports a '
+                  'client whose disconnect handler already ran as connected, '
+                  'and a concurrent disconnect() runs the handler again'
+                  % (unmark[0].lineno, leaves[-1].lineno),
+                  where=where(f, unmark[0].node))
+    if not seen:
+        ctx.bad('BaseManager.basic_disconnect', 'no-unmark', 'no path '
+                'both leaves the rooms and drops the mark', where(f))
     ctx.assume('a repair relying on a single GIL-atomic operation instead of '
                'a lock is not recognised (stated limit)')
     ctx.assume('schedules are NOT explored; this is the lock discipline '
